@@ -256,6 +256,93 @@ func TestVerifC18Race(t *testing.T) {
 		}
 	})
 
+	// a decoder with a helper goroutine on top of a pooled Flate layer is closed
+	// early, again and again, while other goroutines read ordinary Flate streams
+	// of the same file: what the closed stream leaves behind (a goroutine still
+	// reading, a decompressor back in the pool) must not reach them
+	r.Phase("early-close-over-flate", r.N(24, 400), func(c *kit.Case) {
+		rng := c.Rng
+		h := &kit.XHistory{Version: "1.7"}
+		rev := kit.XRev{Actions: map[uint32]kit.XAction{}, Kind: "table"}
+		rev.Actions[1] = kit.XAction{Value: kit.XDict{"Type": kit.XName("Catalog"), "Pages": kit.XRef{Num: 2}}}
+		rev.Actions[2] = kit.XAction{Value: kit.XDict{"Type": kit.XName("Pages"), "Kids": kit.XArray{}, "Count": int64(0)}}
+		jpg := c08JPEG(rng, 200+rng.Intn(400), 200+rng.Intn(400), rng.Bool())
+		rev.Actions[3] = kit.XAction{Value: &kit.XStream{Dict: kit.XDict{"Filter": kit.XArray{kit.XName("FlateDecode"), kit.XName("DCTDecode")}}, Raw: kit.Deflate(jpg)}}
+		nflate := 3 + rng.Intn(3)
+		want := map[uint32]string{}
+		for i := 0; i < nflate; i++ {
+			body := bytes.Repeat(rng.Bytes(64+rng.Intn(200)), 100+rng.Intn(300))
+			n := uint32(4 + i)
+			rev.Actions[n] = kit.XAction{Value: &kit.XStream{Dict: kit.XDict{"Filter": kit.XName("FlateDecode")}, Raw: kit.Deflate(body)}}
+			want[n] = c18rHash(body)
+		}
+		h.Revs = []kit.XRev{rev}
+		data, _ := kit.RenderHistory(rng, h, true, nil)
+		rd, err := pdf.NewReader(bytes.NewReader(data), int64(len(data)), nil)
+		if err != nil {
+			c.Violationf("race/open", "hand-written file: %v", err)
+			return
+		}
+		var wg sync.WaitGroup
+		var mu sync.Mutex
+		report := func(key, format string, args ...any) {
+			mu.Lock()
+			defer mu.Unlock()
+			c.Violationf(key, format, args...)
+		}
+		seeds := []uint64{rng.Uint64(), rng.Uint64()}
+		for gi := 0; gi < 2; gi++ {
+			wg.Add(1)
+			go func(gi int) {
+				defer wg.Done()
+				lr := kit.NewRand(seeds[gi])
+				for it := 0; it < 25; it++ {
+					obj, err := rd.Get(pdf.NewReference(3, 0), true)
+					stm, ok := obj.(*pdf.Stream)
+					if err != nil || !ok {
+						report("race/early-close/get", "Get(3 0 R): %v", err)
+						return
+					}
+					rc, err := pdf.DecodeStream(rd, nil, stm)
+					if err != nil {
+						report("race/early-close/open", "DecodeStream of the image: %v", err)
+						return
+					}
+					io.ReadFull(rc, make([]byte, lr.Intn(100)))
+					rc.Close()
+				}
+			}(gi)
+		}
+		for gi := 0; gi < 4; gi++ {
+			wg.Add(1)
+			go func(gi int) {
+				defer wg.Done()
+				for it := 0; it < 12; it++ {
+					n := uint32(4 + (gi+it)%nflate)
+					obj, err := rd.Get(pdf.NewReference(n, 0), true)
+					stm, ok := obj.(*pdf.Stream)
+					if err != nil || !ok {
+						report("race/early-close/get", "Get(%d 0 R): %v", n, err)
+						return
+					}
+					rc, err := pdf.DecodeStream(rd, nil, stm)
+					var body []byte
+					if err == nil {
+						body, err = io.ReadAll(rc)
+						rc.Close()
+					}
+					if err != nil || c18rHash(body) != want[n] {
+						report("race/early-close/other-stream-differs", "a Flate stream read while another goroutine closes [/FlateDecode /DCTDecode] readers early: %d bytes, %v; the stream decodes differently when read alone", len(body), err)
+						return
+					}
+				}
+			}(gi)
+		}
+		wg.Wait()
+		c.R.Count("early_close_workloads", 1)
+		c.Distinct(fmt.Sprint("early-close", c.Index, len(data)))
+	})
+
 	// first use of a predefined CMap by several goroutines at once: every caller must get
 	// the one cached value (each name can be "first used" once per process, so every case
 	// takes its own names)
